@@ -155,6 +155,27 @@ def new_dir(tag="w"):
     return path
 
 
+def purge_scratch():
+    """End of a run: everything the run created in this process's scratch root goes away at once (a thorough campaign makes
+    tens of thousands of directories per worker; tmpfs runs out of inodes long before it runs out of bytes)."""
+    root = os.path.join(os.environ.get("VERIF_SCRATCH") or ("/dev/shm" if os.path.isdir("/dev/shm") else "/tmp"),
+                        "bumpver-verif-%d" % os.getpid())
+    try:
+        os.chdir("/")
+        names = os.listdir(root)
+    except OSError:
+        return
+    for name in names:
+        full = os.path.join(root, name)
+        if os.path.isdir(full) and not os.path.islink(full):
+            shutil.rmtree(full, ignore_errors=True)
+        else:
+            try:
+                os.unlink(full)
+            except OSError:
+                pass
+
+
 def sweep_stale_scratch():
     """Remove scratch directories left behind by workers that were killed (their pid is gone)."""
     base = os.environ.get("VERIF_SCRATCH") or ("/dev/shm" if os.path.isdir("/dev/shm") else "/tmp")
